@@ -41,10 +41,12 @@ def racing_mounts(v, quick, rnd):
     space = len(cases)
     if quick and len(cases) > 500:
         # symlink over-mounts on the host-visible handle kinds redirect the walk instead of failing it: never sampled out
-        hot = [c for c in cases if c["meta"]["kind"] == "bind-symlink" and pc.sees(c["meta"]["hk"])]
-        rest = [c for c in cases if not (c["meta"]["kind"] == "bind-symlink" and pc.sees(c["meta"]["hk"]))]
+        # ... and so do procfs-on-procfs binds: they pass the filesystem-type check, only the mount id tells them apart
+        ishot = lambda c: c["meta"]["kind"] in ("bind-symlink", "bind-procfile", "bind-procdir") and pc.sees(c["meta"]["hk"])
+        hot = [c for c in cases if ishot(c)]
+        rest = [c for c in cases if not ishot(c)]
         rnd.shuffle(rest)
-        cases = hot + rest[:max(0, 700 - len(hot))]
+        cases = hot + rest[:300]
     cases.sort(key=lambda c: json.dumps(c["feat"]))
     res = run_pv(cases, jobs=8, tag="C06r")
     fired = 0
